@@ -362,6 +362,9 @@ async def async_execute(
             logger.debug("Submitted ExecNode {} to the ThreadPool in async mode", xn.id)
             async_running.add(exec_future_async)
             async_futures[xn.id] = exec_future_async
+            # give the task its first step now, so that the node is handed to the pool when it is dispatched:
+            # a task left pending would start its node after a failure observed in the meantime
+            await asyncio.sleep(0)
         else:
             # a single execution will be launched and will end.
             # it doesn't count as an additional thread that is running.
